@@ -15,7 +15,7 @@ import numpy as np
 
 from harness import core, learners as L, xlearner as X
 
-MODULES = ["AdaptiveProofs.Props.C10", "AdaptiveProofs.Props.C10More"]
+MODULES = ["AdaptiveProofs.Props.C10", "AdaptiveProofs.Props.C10More", "AdaptiveProofs.Lemmas.L2D"]
 KINDS = ["l1d", "l1d_curv", "l1d_vec", "l1d_tri", "l1d_uni", "lnd2", "lnd3", "l2d", "avg", "avg1d", "seq", "integ",
          "bal:l1d", "bal:seq", "bal:avg", "bal:cycle:l1d", "bal:loss:l1d", "bal:ds:l1d", "ds:l1d", "ds:seq", "ds:avg", "ds:lnd2"]
 
@@ -317,8 +317,22 @@ def run(ctx):
                 sig = "C10.retold_point_still_pending:AverageLearner"
             failures.append({"clause": cl, "signature": sig, "detail": det,
                              "replay": {"kind": r["kind"], "seed": r["seed"], "nops": r["nops"]}})
+    # Learner2D's bookkeeping against its Lean model (AdaptiveModel/L2D.lean; the geometry of _fill_stack is the recorded oracle)
+    from harness import l2d_drive
+    corr = core.Corr("Learner2D~L2D.lean")
+    lrng = random.Random(ctx.rng.randrange(1 << 30))
+    lcases = [dict(c) for c in l2d_drive.CORPUS] + [l2d_drive.gen_case(lrng, ctx.n(40, 60)) for _ in range(ctx.n(150, 2500))]
+    lres = core.pmap(l2d_drive._one, lcases)
+    for r in lres:
+        for k, v in r["stats"].items():
+            corr.count(k, int(v))
+        if r["err"] and str(r["err"]).startswith("harness"):
+            raise RuntimeError(r["err"])
+        if r["err"]:
+            corr.count("history_cut_by_exception_of_the_geometry")
+    core.lockstep(corr, lres, shards=ctx.n(4, 12))
     return core.conclude(
-        ctx, proof, [], failures,
+        ctx, proof, [corr], failures,
         rule="histories of asks (committing or not), out-of-order tells, tells of in-domain points never suggested, re-tells with the "
              "same and with a different value, explicit pending marks, discards, batched tells (for Learner1D both the loop and the "
              "forced batch path, sometimes containing an already known point with a different value) for 20 learner kinds incl. "
@@ -337,7 +351,10 @@ def run(ctx):
                  "kernel-checked `example` next to it and the theorem carries the explicit hypothesis (LearnerND: no operation marks a known "
                  "point pending; integrator: the returned abscissa had no value; AverageLearner1D: told => not pending per operation only, "
                  "ask itself re-issues evaluated seeds - recorded finding)",
-                 "Learner2D has no Lean model: shadow oracle only"],
+                 "Learner2D (AdaptiveModel/L2D.lean, bookkeeping only - the candidate list of _fill_stack is an oracle): proved for every "
+                 "oracle and history; 'asked => pending until told' and 'no stack key is pending' need CandsFresh (the geometry never "
+                 "proposes a pending or evaluated point), which the real geometry violates rarely (recorded finding; kernel-checked "
+                 "counterexamples Ex.nocommit_ask_can_unpend, Ex.inv1_needs_fresh)"],
     )
 
 
